@@ -114,6 +114,12 @@ def lxml_view(e) -> list:
             [lxml_view(c) for c in e]]
 
 
+def lxml_view_t(e) -> list:
+    """the element as Model/XmlRead.v's sem_of_relem_t presents it (stage B reader: text included)"""
+    v = lxml_view(e)
+    return [v[0], v[1], v[2], e.text if e.text else None, [lxml_view_t(c) for c in e]]
+
+
 # ------------------------------------------------------------------ generated Capella-shaped trees
 TEXT_ALPHABET = ['"', "&", "<", ">", "'", "\t", "\n", "\r", "\x7f", " ", "\u0085", " ", "\U0001F600",
                  "�", "é", " ", "]]>", "&amp;", "&#x41;", "a", "Z", "0", ";", "#"]
@@ -565,6 +571,7 @@ def run(chk: lib.Check):
     gens = gen_cases(chk, pools, 80 if quick else 1500)
     dcases = []
     rcases = []
+    rdcases = []
     hist: dict[str, int] = {}
     depth_cols: set[tuple[int, int]] = set()
     kinds: dict[str, int] = {}
@@ -616,10 +623,21 @@ def run(chk: lib.Check):
             if t2 is not None and not any(el.text for el in t2.iter()):
                 body = b1.decode("utf-8").split("?>\n", 1)[1]
                 rcases.append((body, [lxml_view(t2), "\n"]))
+        # the stage B reader (text, CDATA, comments around the root) vs lxml on what was written
+        if b1 is not None and len(rdcases) < (150 if quick else 1500) and all(ord(c) < 128 for c in b1.decode("utf-8")):
+            try:
+                t2 = ET.fromstring(b1, xmlenc.parser())
+            except ET.XMLSyntaxError:
+                t2 = None
+            if t2 is not None and all(isinstance(el.tag, str) for el in t2.iter()):
+                body = b1.decode("utf-8").split("?>\n", 1)[1]
+                rdcases.append((body, [[c.text or "" for c in reversed(list(t2.itersiblings(preceding=True)))], lxml_view_t(t2),
+                                       [c.text or "" for c in t2.itersiblings()]]))
     lap('generated_oracles')
     chk.correspond(IMP, "w_doc", dcases, tag=f"C01_doc_{RUN}", shard=40,
                    describe=lambda i: {"written": dcases[i][1].decode("utf-8", "replace")[:1500] if isinstance(dcases[i][1], bytes) else repr(dcases[i][1])})
     chk.correspond(IMP, "w_read_sem", rcases, tag=f"C01_read_{RUN}", shard=40)
+    chk.correspond(IMP, "w_read_doc", rdcases, tag=f"C01_readdoc_{RUN}", shard=40)
     lap('generated_correspondence')
     chk.coverage["generated_trees"] = kinds
     chk.coverage["columns_before_attribute_70_90"] = dict(sorted(hist.items(), key=lambda kv: int(kv[0])))
